@@ -270,3 +270,9 @@ def run(ctx):
     # URI to a later reference to another (history dependence)
     from .c15 import rule_uridict
     rule_uridict(ctx, "R7.7")
+    # R7.11: no behaviour changes at a number fixed in the source (sizes, depths, counts, magnitudes are unbounded in the property's domain)
+    from . import scope as _scope
+    _scope.rule_no_size_thresholds(ctx, 'R7.11', ('validators', '_utils'), 'the resolver, its store and the dispatcher')
+    # R7.12: what a resolver is made of is its own and live: the handler table a caller edits is the one retrieval consults (toggling a handler)
+    from .c18 import rule_per_validator_resolver
+    rule_per_validator_resolver(ctx, "R7.12")
